@@ -1017,6 +1017,13 @@ impl Actor for SA {
                 // (a C08 violation); park so that a broken idle flag cannot spin the runtime.
                 std::future::pending::<()>().await;
             }
+            if let Some(n0) = self.spec.run_err_when_handled {
+                if self.n >= n0 {
+                    self.run_done += 1;
+                    self.journal.push(format!("run{}", self.run_done));
+                    return Err(format!("run-err-{}", idx));
+                }
+            }
             let step = self.spec.run.get(self.run_done).cloned();
             let r: Result<bool, String> = match step {
                 None => {
